@@ -29,7 +29,7 @@ ASSUMPTIONS = [
     "There is no fermionic normal_order in this PennyLane version; FermiWord.shift_operator (reordering by the "
     "anticommutation relations) is checked in its place.",
 ]
-BUDGET = {"quick": {"examples": 300}, "thorough": {"examples": 12000, "shards": 16}}
+BUDGET = {"quick": {"examples": 300}, "thorough": {"examples": 3000, "shards": 8}}
 SHRINK_LISTS = ("A", "B", "f")
 TOL = 1e-10
 
